@@ -77,14 +77,24 @@ theorem var_for_var_compatible (v w : Var) (h : v.sort = w.sort) : SortCompatibl
   subst h
   cases vs <;> simp [SortCompatible, Var.toTerm]
 
-/-- tau* / mu panic exactly when the global-variable index overflows `usize`. -/
-theorem globals_panic_iff (p : Asp.Program) :
-    globalsPanic p = true ↔ 1 ≤ maxHeadArity p ∧ usizeMax < maxTakenGlobal p + maxHeadArity p := by
-  simp [globalsPanic]
+/-- **Repaired defect (global index).** `choose_fresh_global_variables` computed `max_taken_var + i` with a
+    plain addition: `p(V18446744073709551615).` overflowed (panic in the dev profile). Now the addition is
+    checked and the smallest unused indices are the fallback; the chosen names are pairwise different, no
+    variable of the program is among them, and there is one per head argument - for EVERY program
+    (`chooseFreshGlobals_spec` no longer needs "no overflow"). -/
+theorem fresh_globals_always_fresh (p : Asp.Program) :
+    (chooseFreshGlobals p).Nodup ∧ (∀ g ∈ chooseFreshGlobals p, g ∉ p.vars) ∧
+      (chooseFreshGlobals p).length = maxHeadArity p :=
+  chooseFreshGlobals_spec p rfl
 
-/-- Counterexample (known finding): the accepted program `p(V18446744073709551615).` panics. -/
+/-- tau* and mu no longer panic on any program -/
+theorem globals_never_panic (p : Asp.Program) : globalsPanic p = false := rfl
+
+/-- the former witness: the globals of `p(V18446744073709551615, X) :- q(V1), r(V2).` are the smallest
+    unused names -/
 theorem globals_overflow_witness :
-    globalsPanic [⟨.basic ⟨"p", [.var "V18446744073709551615"]⟩, []⟩] = true := by decide
+    chooseFreshGlobals [⟨.basic ⟨"p", [.var "V18446744073709551615", .var "X"]⟩,
+      [.lit ⟨.pos, ⟨"q", [.var "V1"]⟩⟩, .lit ⟨.pos, ⟨"r", [.var "V2"]⟩⟩]⟩] = ["V3", "V4"] := by decide
 
 /-- After fix ca17dcd the TPTP printer panics on no formula. -/
 theorem tptp_panic_free (F : Formula) : F.tptpPanics = false := by
@@ -102,10 +112,16 @@ theorem tptp_panic_free (F : Formula) : F.tptpPanics = false := by
 theorem completion_of_tau_star_exists (P : Asp.Program) (ins : List Pred) (hp : globalsPanic P = false) :
     ∃ Γ, completion (tauStar P) ins = some Γ := completion_tauStar_some P ins hp
 
-/-- **The external-equivalence pipeline panics only on the overflow of the global-variable index**
-    of tau* on one of the two programs (the known finding `V18446744073709551615`): no other
-    `expect`, `unwrap` or `unreachable!` of `ExternalEquivalenceTask::decompose`, of the outline
+/-- **The external-equivalence pipeline never panics**: the only panic of
+    `ExternalEquivalenceTask::decompose` that was reachable - the overflow of the global-variable index of
+    tau* - is repaired, and no other `expect`, `unwrap` or `unreachable!` of the pipeline, of the outline
     construction or of the assembly is reachable, for any task. -/
+theorem external_never_panics (t : ExternalTask) (fuel : Nat) (s : String) :
+    externalProblems t fuel ≠ .panic s := by
+  intro h
+  rcases externalProblems_panic t fuel s h with h1 | ⟨PL, _, h1⟩ <;> cases h1
+
+/-- the statement as it was before the repair (a panic implies the overflow condition, now never true) -/
 theorem external_panic_only_overflow (t : ExternalTask) (fuel : Nat) (s : String)
     (h : externalProblems t fuel = .panic s) :
     globalsPanic t.program = true ∨ ∃ PL, t.specification = .inl PL ∧ globalsPanic PL = true :=
